@@ -174,8 +174,11 @@ def main(argv):
             r["failing"] += 1
     coverage = {
         "explanation": spec["explanation"],
-        "obligations": len(obs),
+        # the claim of this run covers every obligation except the recorded known findings (genuine defects of the tree,
+        # listed in known_findings.txt and printed as KNOWN-FINDING): they are counted separately, not as discharged
+        "obligations": len(obs) - len(listed),
         "discharged": len([o for o in obs if o.ok]),
+        "known_findings_outside_the_claim": len(listed),
         "evaluations": len(obs),
         "distinct_nontrivial": nontrivial,
         "rule": "one obligation per rule instance found in the clang AST/CFG (or LLVM IR) of /repo's current tree; "
